@@ -16,7 +16,6 @@ import verif
 
 ck = verif.Check("C08")
 rng = ck.rng
-pr = ck.prove()
 
 POW = [1, 2, 3, 4, 7, 8, 9, 15, 16, 17, 31, 32, 33]
 BIG = [1000, 1023, 1024, 1025, 511, 513]
@@ -102,11 +101,29 @@ else:
         shards.append(("random-%d" % i, gen_random(700)))
 
 # ---------------------------------------------------------------- build + run
-exe, log = ck.build_cpp("c08_harness", ["harness/C08/msp_harness.cpp"])
+# The harness instantiates both templates for 10 variants x 3 comparators; it is compiled as four translation units
+# in parallel (-DC08_PART=0..3) while the extracted model already runs on the shards (4 jobs at a time).
+pool = concurrent.futures.ThreadPoolExecutor(max_workers=4)
+CXXF = ["-std=c++17", "-O1", "-g1", "-fsanitize=address,undefined", "-fno-sanitize-recover=all", "-fno-omit-frame-pointer"]
+parts = [pool.submit(ck.build_cpp, "c08_part%d.o" % i, ["harness/C08/msp_harness.cpp"], CXXF + ["-c", "-DC08_PART=%d" % i])
+         for i in range(4)]
+pr = ck.prove()
 drv, dlog = ck.ocaml_driver("C08")
+files = []
+for k, (name, lines) in enumerate(shards):
+    p = os.path.join(ck.scratch, "cases_%d.txt" % k)
+    open(p, "w").write("\n".join(lines) + "\n")
+    files.append(p)
+TMO = 3000
+fm = [pool.submit(verif.sh, [drv, p], TMO) for p in files] if drv else []
+objs = [f.result() for f in parts]
+exe, log = None, "\n".join(l for _, l in objs)
+if all(o for o, _ in objs):
+    exe, log = ck.build_cpp("c08_harness", [o for o, _ in objs], ["-fsanitize=address,undefined"])
 found = False
 reported = 0
 stats = {"entries": 0, "nontrivial_distinct": 0}
+variant_calls = {}
 hist = {"cmp": {}, "m": {}, "maxlen": {}}
 samples = []
 tuples_run = 0
@@ -140,20 +157,18 @@ elif drv is None:
     ck.violation("extracted model/driver does not build",
                  {"correspondence": "ocaml/C08_driver.ml", "log": dlog[-2000:]}, no_input=True)
 else:
-    files = []
-    for k, (name, lines) in enumerate(shards):
-        p = os.path.join(ck.scratch, "cases_%d.txt" % k)
-        open(p, "w").write("\n".join(lines) + "\n")
-        files.append(p)
     env = dict(os.environ, ASAN_OPTIONS="detect_leaks=1")
-    TMO = 3000
-    with concurrent.futures.ThreadPoolExecutor(max_workers=4) as ex:
-        fi = [ex.submit(verif.sh, [exe, p], TMO, None, env) for p in files]
-        fm = [ex.submit(verif.sh, [drv, p], TMO) for p in files]
-        results = [(a.result(), b.result()) for a, b in zip(fi, fm)]
+    fi = [pool.submit(verif.sh, [exe, p], TMO, None, env) for p in files]
+    results = [(a.result(), b.result()) for a, b in zip(fi, fm)]
 
     for (name, lines), ((rc1, out1), (rc2, out2)) in zip(shards, results):
         impl = out1.splitlines()
+        for l in impl:
+            if l.startswith("#VARIANTS"):
+                for kv in l.split()[1:]:
+                    k, v = kv.rsplit("=", 1)
+                    variant_calls[k] = variant_calls.get(k, 0) + int(v)
+        impl = [l for l in impl if not l.startswith("#")]
         model = [l for l in out2.splitlines()]
         st = [l for l in model if l.startswith("#STATS")]
         model = [l for l in model if not l.startswith("#")]
@@ -236,6 +251,7 @@ else:
             samples.append({"shard": name, "case": ("(enumerated by) " + " ; ".join(lines)) if exh else lines[k][:400],
                             "result": impl[k][:400]})
 
+pool.shutdown(wait=True)
 if pr is not None and not pr["ok"]:
     ck.proof_broken(found)
 
@@ -244,7 +260,11 @@ ck.finish({
     "distinct_nontrivial": stats.get("nontrivial_distinct", 0),
     "tuples": tuples_run,
     "rule": "one evaluation = one (comparator, tuple of sorted sequences, rank) on which both multisequence_partition and "
-            "multisequence_selection of /repo (ASan+UBSan) and the extracted Coq model are run and compared; the model answer "
+            "multisequence_selection of /repo (ASan+UBSan) and the extracted Coq model are run and compared. The templates are "
+            "instantiated in 10 variants (RankType int/long/long long/unsigned/size_t; vector, deque and raw-pointer iterators; "
+            "pair sequence by iterator, pointer, const_iterator; element int or key+payload struct compared by key; plain, by-key "
+            "and stateful non-default-constructible comparators): corpus and random cases run every variant on every rank (all "
+            "must agree), enumerated cases rotate through the variants (template_variant_calls = calls per variant); the model answer "
             "is also compared with the extracted split_spec/select_spec and check_split. Families: the corpus (defect witnesses), "
             "complete enumerations `exh <cmp> <m> <minlen> <maxlen> <keys>` (every tuple of m sorted sequences, every rank 0..N) "
             "and random tuples (lengths around powers of two, 1-3 against 511..1025, up to 9 sequences; 1,2,3,5,1000 keys; "
@@ -253,18 +273,20 @@ ck.finish({
             "(comparator, tuple) in the shard, counted by the OCaml driver.",
     "samples": samples,
     "input_distribution": hist,
+    "template_variant_calls": variant_calls,
     "exhaustive": False,
     "exhaustive_families": [l for _, ls in shards for l in ls if l.startswith("exh")],
-    "level_note": "partial: spec_unique, split_spec_is_split, merged_order (sorted permutation, prefix counts), check_split and "
-                  "check_select sound+complete, partition_full_rank and partition_offsets_in_range are proved for all inputs; "
-                  "partition_correct/selection_correct for rank < N are stated but only proved for answers accepted by the "
-                  "checker (partition_accepted_partial) and evaluated exhaustively on small domains",
+    "level_note": "full: C08_partition_correct and C08_selection_correct (model of both algorithms = the specification, for every "
+                  "strict weak order, every non-empty tuple of non-empty sorted sequences, every rank) are proved, with "
+                  "spec_unique, split_spec_is_split, merged_order and both checkers sound+complete; the tie of the hand-written "
+                  "model to /repo is the correspondence run",
 }, assumptions=[
     "std::sort on the sample and both std::priority_queue's are modelled by insertion into a list kept sorted by the "
     "(value, sequence) order (all keys carry distinct sequence numbers, so the result is determined)",
     "std::lower_bound is modelled by its specification (length of the maximal prefix of elements < v)",
     "diff_type arithmetic is modelled on Z (no overflow); x/2 and x/(n+1) on the non-negative values the documented invariant guarantees",
     "the model returns None (never observed) when the documented invariant 0 <= a[i] <= seqlen[i], 0 <= b[i] <= l fails or pq.top() is taken on an empty queue",
-    "element type int; comparators std::less, std::greater and less-on-x/4",
+    "element types int and struct{key,payload}; comparators std::less, std::greater, less-on-x/4, each also wrapped by-key / stateful; "
+    "RankType int, long, long long, unsigned int, std::size_t; iterators vector, deque, raw pointer",
     "extraction: ExtrOcamlBasic only; nat/Z/list stay Coq inductives",
 ])
